@@ -1,7 +1,114 @@
-(* Property C08 — placeholder while the proofs are being written. *)
-From Coq Require Import List NArith ZArith.
-From PitCs Require Import Model Spec.
+(* Property C08 — forwarder state is reclaimed (PIT, token map, expiry queue, PIT/CS name tree, LRU bookkeeping, dead nonce
+   list).  The FIB/RIB part of the statement is proved in coq/Tables (Props_C08_tables.v, builder "tables").
+   Only theorem statements closed by `exact`, each followed by Print Assumptions.
+
+   Reading guide.  `start`, `run`, operations: as in Props_C07.v.  E s = the list of all PIT entries of state s (over all
+   tree nodes).  `lifetimes_within L ops` = every Interest of the history has lifetime <= L (default 4 s when absent);
+   by c08_lifetimes_exist such an L exists for every history, so the theorems speak about EVERY traffic history
+   (Interests with any lifetimes, retransmissions, Data with and without PIT tokens, cache hits, evictions, capacity
+   changes, any interleaving of reaper ticks and DNL sweeps).  The set of faces the strategy forwards an Interest to is
+   an argument of the Interest operation, so every forwarding decision is covered. *)
+From Coq Require Import List NArith ZArith Bool.
+From PitCs Require Import Model Spec Lib TreeInv Cs Pit Reclaim Dnl C07 C08.
 Import ListNotations.
 Open Scope Z_scope.
-Example c08_example : c08_always (dump_of (init 0 2 true true 5)) = nil.
-Proof. vm_compute. reflexivity. Qed.
+
+Theorem c08_lifetimes_exist : forall ops, exists L, 0 <= L /\ lifetimes_within L ops.
+Proof. exact lifetimes_exist. Qed.
+Print Assumptions c08_lifetimes_exist.
+
+(* invariant pit_queued: every PIT entry — also one created for an Interest answered from the cache — is in the expiry
+   queue under its expiration time, which is at most L past now, and is already due when no in/out record is left
+   (satisfied or answered from the cache) *)
+Theorem c08_pit_queued : forall t0 c sv ad life ops L, 0 <= L -> lifetimes_within L ops ->
+  let s := run (start t0 c sv ad life) ops in
+  forall e, In e (E s) -> p_q e = true /\ In (p_id e, p_exp e) (heap s) /\ p_exp e <= now s + L /\
+                          (p_ins e = [] -> p_outs e = [] -> p_exp e <= now s).
+Proof. exact pit_queued. Qed.
+Print Assumptions c08_pit_queued.
+
+(* Update() removes exactly the entries that are due and schedules the next call within 100 ms *)
+Theorem c08_reaper : forall t0 c sv ad life ops L, 0 <= L -> lifetimes_within L ops ->
+  let s := run (start t0 c sv ad life) ops in let s' := pit_update s in
+  (forall e, In e (E s') -> In e (E s) /\ now s < p_exp e) /\ now s < timer_at s' <= now s + tick_interval.
+Proof. exact reaper. Qed.
+Print Assumptions c08_reaper.
+
+(* once every lifetime has elapsed, the next Update() leaves PIT, token map and expiry queue empty *)
+Theorem c08_pit_drains : forall t0 c sv ad life ops L d, 0 <= L -> lifetimes_within L ops -> L <= Z.of_N d ->
+  let s := run (start t0 c sv ad life) (ops ++ [OAdv d; OTick]) in
+  E s = [] /\ npit s = 0 /\ tokmap s = [] /\ heap s = [].
+Proof. exact drains. Qed.
+Print Assumptions c08_pit_drains.
+
+(* reported sizes are the true numbers of entries, in every reachable state *)
+Theorem c08_sizes_truthful : forall t0 c sv ad life ops L, 0 <= L -> lifetimes_within L ops ->
+  let s := run (start t0 c sv ad life) ops in
+  npit s = Z.of_nat (length (E s)) /\ length (tokmap s) = length (E s) /\ length (heap s) = length (E s) /\
+  ncs s = Z.of_nat (length (c_list (cache_of s))) /\ length (csmap s) = length (lruq s) /\ length (locs s) = length (lruq s).
+Proof. exact sizes_reach. Qed.
+Print Assumptions c08_sizes_truthful.
+
+(* the PIT/CS name tree is, in every reachable state, exactly the prefix closure of the names that hold a PIT entry or a
+   cached packet (no dead branch after expiry or eviction); with an empty PIT: of the cached names *)
+Theorem c08_tree_is_cs_closure : forall t0 c sv ad life ops L, 0 <= L -> lifetimes_within L ops ->
+  let s := run (start t0 c sv ad life) ops in
+  NoDup (paths (nodes s)) /\
+  (forall p, In p (paths (nodes s)) -> p <> [] -> exists q, is_prefix p q = true /\ (pit_at (nodes s) q <> [] \/ cs_at (nodes s) q <> None)) /\
+  (forall q p, (pit_at (nodes s) q <> [] \/ cs_at (nodes s) q <> None) -> is_prefix p q = true -> In p (paths (nodes s))) /\
+  (E s = [] -> forall p, In p (paths (nodes s)) -> p <> [] -> exists q, is_prefix p q = true /\ cs_at (nodes s) q <> None).
+Proof. exact tree_is_closure. Qed.
+Print Assumptions c08_tree_is_cs_closure.
+
+(* LRU queue, locations map and csMap hold exactly the cached names *)
+Theorem c08_lru_bookkeeping : forall t0 c sv ad life ops,
+  let s := run (start t0 c sv ad life) ops in
+  NoDup (lruq s) /\ NoDup (locs s) /\ NoDup (csmap s) /\
+  forall n, (In n (lruq s) <-> cs_at (nodes s) n <> None) /\ (In n (locs s) <-> In n (lruq s)) /\ (In n (csmap s) <-> In n (lruq s)).
+Proof. exact lru_bookkeeping. Qed.
+Print Assumptions c08_lru_bookkeeping.
+
+(* dead nonce records: map and queue agree, every record is due at most the configured lifetime after now ... *)
+Theorem c08_dnl_wf : forall t0 c sv ad life ops,
+  let s := run (start t0 c sv ad life) ops in
+  length (dnl s) = length (dnlq s) /\ (forall x, In x (dnlq s) -> snd x <= now s + life).
+Proof. exact dnl_wf. Qed.
+Print Assumptions c08_dnl_wf.
+
+(* ... and after that lifetime k sweeps (100 records each, as in the code) remove min(100 k, n) records *)
+Theorem c08_dnl_drains : forall t0 c sv ad life ops d k, life < Z.of_N d ->
+  let s0 := run (start t0 c sv ad life) ops in
+  let s := run (start t0 c sv ad life) (ops ++ [OAdv d] ++ repeat ODnl k) in
+  length (dnlq s) = (length (dnlq s0) - 100 * k)%nat /\ length (dnl s) = length (dnlq s).
+Proof. exact dnl_drain. Qed.
+Print Assumptions c08_dnl_drains.
+
+(* the extracted dump oracle evaluated by the runner on the implementation holds on every reachable state of the model *)
+Theorem c08_oracle_always : forall t0 c sv ad life ops L, 0 <= L -> lifetimes_within L ops ->
+  c08_always (dump_of (run (start t0 c sv ad life) ops)) = [].
+Proof. exact oracle_always_reach. Qed.
+Print Assumptions c08_oracle_always.
+
+(* quiescence in one statement: history, then longer than every Interest lifetime, a reaper tick, then longer than the
+   dead-nonce lifetime and enough sweeps: everything is empty and both dump oracles accept *)
+Theorem c08_quiescence : forall t0 c sv ad life ops L d1 d2 k, 0 <= L -> lifetimes_within L ops -> L <= Z.of_N d1 -> life < Z.of_N d2 ->
+  let s1 := run (start t0 c sv ad life) (ops ++ [OAdv d1; OTick]) in
+  (length (dnlq s1) <= 100 * k)%nat ->
+  let s := run (start t0 c sv ad life) ((ops ++ [OAdv d1; OTick]) ++ [OAdv d2] ++ repeat ODnl k) in
+  E s = [] /\ npit s = 0 /\ tokmap s = [] /\ heap s = [] /\ dnl s = [] /\ dnlq s = [] /\
+  c08_always (dump_of s) = [] /\ c08_quiescent (dump_of s) = [].
+Proof. exact quiescence. Qed.
+Print Assumptions c08_quiescence.
+
+(* non-vacuity: a cached packet, an Interest answered from the cache (its PIT entry is queued and due at once), a forwarded
+   Interest with a 50 ms lifetime, a Data that satisfies it; after 4 s and one tick the PIT is empty, the tree holds only
+   the path to the cached packet, and after the DNL lifetime and one sweep the dead nonce list is empty *)
+Example c08_example :
+  let ops := [OIns [1;2]%N 7 (Some 5000000000%N); OInterest 1 [1;2]%N false false 11 None [];
+              OInterest 2 [3;4;5]%N true false 12 (Some 50000000%N) [3%N]; OAdv 1000000;
+              OData [3;4;5;6]%N 8 None None] in
+  let s := run (start 100 1 true true 6000000000) ops in
+  length (E s) = 2%nat /\ length (heap s) = 2%nat /\ c08_always (dump_of s) = [] /\
+  let s' := run s [OAdv 4000000000; OTick; OAdv 6000000001; ODnl] in
+  E s' = [] /\ map n_path (nodes s') = [[]; [3%N]; [3;4]%N; [3;4;5]%N; [3;4;5;6]%N] /\ dnl s' = [] /\ c08_quiescent (dump_of s') = [].
+Proof. vm_compute. repeat split. Qed.
